@@ -22,7 +22,8 @@ def _hook(event, args):
         elif event in ("os.rename", "os.replace"):
             src, dst = os.fsdecode(args[0]), os.fsdecode(args[1])
             if src.startswith(_ROOTS[0]) or dst.startswith(_ROOTS[0]):
-                _LOG.append(("rename", src, dst))
+                # the hook runs before the operation: record whether source / destination exist at that moment
+                _LOG.append(("rename", src, dst, os.path.exists(src), os.path.exists(dst)))
         elif event in ("os.remove", "os.unlink"):
             p = os.fsdecode(args[0])
             if p.startswith(_ROOTS[0]):
